@@ -358,7 +358,7 @@ ALL_COMMB = sorted(COMMB_MB)
 
 def all_commb_events():
     """exploration 2d: a listed aircraft heard ONLY through Comm-B replies of every kind (incl. unidentifiable ones)."""
-    return [("A", k_, g) for k_ in ALL_COMMB for g in (30, 57.4)] + [("A", "tick", 57.4), ("A", "tick", 30), ("A", "id", 61.2), ("B", "id", 30)]
+    return [("A", k_, g) for k_ in ALL_COMMB + ["cb2"] for g in (30, 57.4)] + [("A", "tick", 57.4), ("A", "tick", 30), ("A", "id", 61.2), ("B", "id", 30)]
 
 
 def norm_table(acs):
@@ -390,6 +390,21 @@ def step2(st, who, kind, gap, lag=0.0):
         except Exception as e:  # noqa: BLE001
             exc = type(e).__name__
         return S2(du, dl, tnow, heard, exc, None)
+    if kind == "cb2":
+        # one call carrying TWO Comm-B replies 40 s apart: first a reply from a transponder the table has never heard in
+        # ADS-B (must be ignored), then a reply from `who` - which counts as heard at ITS time if it was listed
+        key = "%06X" % AC2[who]
+        listed_before = key in du.acs
+        other = F.long_ap(20, 0x0001838, CF.bds50(), 0x7C1234)
+        mine = F.long_ap(21, 0x0000AAA, CF.bds60(), AC2[who])
+        try:
+            du.process_raw([], [], [t - 40.0, t], [other.upper(), mine.upper()], tnow=tnow)
+            dl.process_raw([], [], [t - 40.0, t], [other.lower(), mine.lower()], tnow=tnow)
+        except Exception as e:  # noqa: BLE001
+            exc = type(e).__name__
+        if listed_before:
+            heard[key] = t
+        return S2(du, dl, tnow, heard, exc, (key, "commb", listed_before))
     msg, cls = msg2(kind, who)
     key = "%06X" % AC2[who]
     listed_before = key in du.acs
@@ -818,7 +833,7 @@ def run(ctx):
     for a in all_adsb_events():
         tasks.append(("list", (a,), 4 if ctx.thorough else 3, "all_adsb", None))
     for a in all_commb_events():
-        if a[1] in ALL_COMMB:
+        if a[1] in ALL_COMMB + ["cb2"]:
             tasks.append(("list", (("A", "id", 0.3), a), 4 if ctx.thorough else 3, "all_commb", None))
     for b in BATCHES:
         tasks.append(("batch", b, 4 if ctx.thorough else 3))
